@@ -33,8 +33,9 @@ Print Assumptions C14_stutter_any.
 (* the preview answers exactly what the real write answers, for every kind of request and every outcome: both
    answers are [answer disk lastTXID q] (Engine/E3Dry.v), a function of the disk and of lastTXID only:
      revert: transaction absent -> ENotFound; already reverted -> EAlreadyReverted; then as a create of the swapped postings
-     key present on disk: same kind -> ROk (stored transaction id) ; other kind -> EKindMismatch for a transaction,
-                          ROk for a metadata write (which does not look at the stored entry)
+     key present on disk: the stored entry is the outcome of this request ([is_outcome_of]: same kind; revert: same
+                          reverted transaction; metadata write: same target and content) -> ROk (stored transaction
+                          id); otherwise (key reused with a different request) -> EKeyReused, for every kind
      transaction: reference on disk -> EConflict; funds (balances read from the disk) insufficient -> EInsufficient;
                   no posting -> ENoPostings; otherwise ROk (lastTXID + 1)
      metadata write: target transaction absent -> ENotFound; otherwise ROk *)
@@ -142,6 +143,23 @@ Proof.
   split; [apply quiescent_b_sound; vm_compute; reflexivity|].
   vm_compute. repeat split.
 Qed.
+
+(* ---- key reuse: in the same state, a revert of transaction 0 under key 8 -- the key that stored the SECOND create --
+   is refused, as a preview and as a real write alike ([answer]: the stored entry is not the outcome of this request,
+   [EKeyReused]); the preview changes nothing observable, the real one writes nothing. The same create repeated under
+   its key 8 is answered its stored id 1, preview and real alike ----------------------------------------------------- *)
+Definition c14_reuse : request := mk_revert 8 true 0%nat.
+Definition c14_same : request := mk_create 8 9 true [(world, 6%N, 4%Z)].
+Example C14_key_reused_nonvacuous :
+  exists s, run init c14_acts = Some s /\
+    answer (persisted s) (v_lasttx s) c14_reuse = RErr EKeyReused /\
+    option_map t_resp (get_thread (threads (submit s 7%nat c14_reuse)) 7%nat) = Some (Some (RErr EKeyReused)) /\
+    option_map t_resp (get_thread (threads (submit s 7%nat (with_dry c14_reuse false))) 7%nat) = Some (Some (RErr EKeyReused)) /\
+    observe (submit s 7%nat c14_reuse) = observe s /\
+    persisted (submit s 7%nat (with_dry c14_reuse false)) = persisted s /\
+    option_map t_resp (get_thread (threads (submit s 7%nat c14_same)) 7%nat) = Some (Some (ROk (Some 1%nat))) /\
+    option_map t_resp (get_thread (threads (submit s 7%nat (with_dry c14_same false))) 7%nat) = Some (Some (ROk (Some 1%nat))).
+Proof. eexists. repeat (split; [vm_compute; reflexivity|]). vm_compute; reflexivity. Qed.
 
 (* ---- non-vacuity of the extended [avoids]: after a preview (thread 7) on the empty ledger, a later concurrent run
    in which the balance read of request 1 fails under its account locks ([AResumeReadFail 1]: [EStoreRead], locks
